@@ -296,6 +296,77 @@ func runIsoMask(c *core.Ctx) []core.Obligation {
 	} else {
 		b.und("months-30", "-", "iso8601.validate not found")
 	}
+	// ---- layout mismatches fall back to time.Parse: the word-at-a-time tests recognise one fixed
+	// layout; time.Parse accepts others of the same length (a one-digit hour before a fraction),
+	// so failing those tests must not be an error by itself
+	{
+		callsTimeParse := map[*ssa.BasicBlock]bool{}
+		for _, blk := range parse.Blocks {
+			for _, in := range blk.Instrs {
+				if call, ok := in.(*ssa.Call); ok && calleeName(call.Common()) == "time.Parse" {
+					callsTimeParse[blk] = true
+				}
+			}
+		}
+		isLayoutCond := func(v ssa.Value) bool {
+			return dependsOn(v, func(x ssa.Value) bool {
+				if call, ok := x.(*ssa.Call); ok {
+					if f := staticCallee(call.Common()); f != nil && f.Name() == "match" {
+						return true
+					}
+				}
+				// the separator byte at index 19
+				if ld, ok := x.(*ssa.UnOp); ok {
+					if ia, ok := ld.X.(*ssa.IndexAddr); ok {
+						if i, isK := constInt(ia.Index); isK && i == 19 {
+							return true
+						}
+					}
+				}
+				return false
+			})
+		}
+		n, bad := 0, ""
+		for _, blk := range parse.Blocks {
+			if len(blk.Instrs) == 0 {
+				continue
+			}
+			ifi, ok := blk.Instrs[len(blk.Instrs)-1].(*ssa.If)
+			if !ok || !isLayoutCond(ifi.Cond) {
+				continue
+			}
+			n++
+			// a return reachable from either side without passing the time.Parse call and
+			// without having decoded the fields (the success path calls time.Unix)
+			for _, succ := range blk.Succs {
+				reach := reachableFrom(succ, callsTimeParse)
+				for rb := range reach {
+					if len(rb.Instrs) == 0 {
+						continue
+					}
+					r, isRet := rb.Instrs[len(rb.Instrs)-1].(*ssa.Return)
+					if !isRet || len(r.Results) != 2 || isNilConst(r.Results[1]) {
+						continue
+					}
+					// an error return: is it the direct consequence of the layout test
+					// (no other test in between)?
+					if rb == succ {
+						bad = c.InstrPos(r)
+					}
+				}
+			}
+		}
+		key := "layout-mismatch-falls-back"
+		switch {
+		case n == 0:
+			b.und(key, c.FuncPos(parse), "no layout test (match / separator byte) found in the fast path")
+		case bad != "":
+			b.bad(key, bad, "the fast path returns an error as the direct consequence of a layout test (separator positions): time.Parse accepts other layouts of the same length, e.g. 2000-01-01T1:00:00.12Z, so Parse rejects what time.Parse(time.RFC3339Nano, s) accepts; the mismatch must take the time.Parse fallback")
+		default:
+			b.ok(key, c.FuncPos(parse), fmt.Sprintf("%d layout tests, none leads directly to an error return", n))
+		}
+	}
+
 	// ---- fraction separator: the fast path's early rejection must let through exactly the
 	// separators time.Parse accepts before fractional seconds ('.' and ',')
 	{
